@@ -130,7 +130,7 @@ func runProperty(spec PropSpec, tier string, seed, workers int, solver string) *
 		sh := &Shared{
 			prog: ld.prog, pkg: ld.pkg, harness: fn, hname: hs.Name, params: res.Params,
 			unwind: res.Unwind, modPath: modulePath, marks: newMarkers(), tier: tier,
-			replace: map[string]*ssaFunction{}, fixedMapOrder: hs.FixedMapOrder,
+			replace: map[string]*ssaFunction{}, fixedMapOrder: hs.FixedMapOrder, seed: seed,
 			deadline: time.Now().Add(time.Duration(budget) * time.Second),
 		}
 		for _, m := range hs.Models {
